@@ -60,4 +60,41 @@ theorem c15_tail_hidden (c : Cfg) (name tail tail' : Bytes) (hn : ∀ x ∈ name
 theorem c15_variants_present : Gen.pageArgs.length = 7 ∧ ∀ v ∈ Gen.pageArgs, CfgField.WIFI_SSID ∈ v.2 := by
   decide
 
+/-! ### the page fits the buffer allocated for it -/
+
+theorem weighted_mono (a b : List Nat) : ∀ (ls : List Nat), leAll a b = true → weighted a ls ≤ weighted b ls := by
+  induction a generalizing b with
+  | nil => intro ls _; cases b <;> simp [weighted]
+  | cons x xs ih =>
+    intro ls h
+    cases b with
+    | nil => simp [leAll] at h
+    | cons y ys =>
+      simp only [leAll, Bool.and_eq_true, decide_eq_true_eq] at h
+      cases ls with
+      | nil => simp [weighted]
+      | cons l ls =>
+        simp only [weighted]
+        have := ih ys ls h.2
+        have := Nat.mul_le_mul_right l h.1
+        omega
+
+/-- **C15 (fits, general)** whenever the regenerated numbers of a page satisfy the decidable condition `ok`, the page with
+    its terminator fits `bufflen` - for every length of every string that is printed and every choice of the constant
+    alternatives -/
+theorem c15_fit_sound (p : PageFit) (h : p.ok = true) (ls : List Nat) (k : Nat) (hk : k ≤ p.constMax) :
+    p.pageLen ls k + 1 ≤ p.buffLen ls := by
+  unfold PageFit.ok at h
+  simp only [Bool.and_eq_true, decide_eq_true_eq] at h
+  have := weighted_mono p.printed p.summed ls h.1
+  unfold PageFit.pageLen PageFit.buffLen
+  omega
+
+/-- **C15 (fits, this source tree)** every SUPLA page variant of /repo satisfies the condition: each string printed with %s
+    has its strlen in the sum, every %02X prints an unsigned char, and the constant arguments are covered by the constant
+    added to bufflen -/
+theorem c15_pages_fit : ∀ p ∈ Gen.pageFit, p.ok = true := by decide
+
+theorem c15_fit_variants : Gen.pageFit.length = 6 := by decide
+
 end SuplaVerif.C15
